@@ -592,6 +592,47 @@ func (s *Sim) mstepLite(f func()) {
 	f()
 }
 
+// checkTxDone (C17 runs, judged on the wire only): every time-out notification is
+// processed exactly once, so an unanswered request whose retransmissions all fell due long
+// ago was sent exactly 1+MaxRetrans times.
+func (s *Sim) checkTxDone() {
+	if s.cfg.Profile != "C17" || !s.oracleOn("C09") || s.upfDead || s.n4errs() != 0 || s.tearing {
+		return
+	}
+	slack := 30 * time.Second
+	// a backlogged event loop (slow data plane, periodic reports piling up) retransmits
+	// late, legitimately: only a UPF that has been silent for a while is judged
+	outs := s.n4.outSince(0)
+	quiet := len(outs) > 0 && s.since()-outs[len(outs)-1].At >= 20*time.Second
+	W := time.Duration(s.cfg.RetransMs) * time.Millisecond
+	// ... or one that has meanwhile taken a later request through all of its
+	// transmissions: time-out events are served in the order they were queued
+	overtaken := func(u *UpReq) bool {
+		dueAt := u.Sends[len(u.Sends)-1] + W
+		for _, v := range s.model.ups {
+			if v != u && len(v.Sends) == 1+s.cfg.MaxRetrans && s.cfg.MaxRetrans > 0 && v.Sends[0] > dueAt+time.Second &&
+				s.since() > v.Sends[len(v.Sends)-1]+W+time.Second {
+				return true
+			}
+		}
+		return false
+	}
+	for _, u := range s.model.ups {
+		if u.Answered || u.MidAns || u.AnsTried || len(u.Sends) == 0 {
+			continue
+		}
+		due := u.Sends[0] + time.Duration((s.cfg.MaxRetrans+1)*s.cfg.RetransMs)*time.Millisecond + slack
+		if s.since() < due || !(quiet || overtaken(u)) {
+			continue
+		}
+		s.probe("c17.timeouts.judged", 1)
+		if len(u.Sends) != 1+s.cfg.MaxRetrans {
+			s.violate("C09", "timeout.exactly-once", "tx:retry-count",
+				"request seq=%d to %s, never answered, was sent %d time(s) although all of its 1+%d transmissions fell due more than %v ago", u.Seq, u.Dst, len(u.Sends), s.cfg.MaxRetrans, slack)
+		}
+	}
+}
+
 func (s *Sim) finalChecks() {
 	if s.res.Violation != nil || s.res.Harness != "" || s.upfDead || s.stopped1 {
 		return
